@@ -1,2 +1,224 @@
+//! printf-style templates (C19) and str.format templates / field names (C20).
+use crate::dump::{hex, jstr};
+use crate::{req_bytes, req_str};
+use rustpython_ast::bigint::BigInt;
+use rustpython_format::cformat::*;
+use rustpython_format::{FieldName, FieldNamePart, FieldType, FormatPart, FormatString, FromTemplate};
 use serde_json::Value;
-pub fn dispatch(_op: &str, _req: &Value) -> Option<String> { None }
+use std::str::FromStr;
+
+fn flags_str(f: CConversionFlags) -> String {
+    let mut s = String::new();
+    if f.contains(CConversionFlags::ALTERNATE_FORM) {
+        s.push('#');
+    }
+    if f.contains(CConversionFlags::ZERO_PAD) {
+        s.push('0');
+    }
+    if f.contains(CConversionFlags::LEFT_ADJUST) {
+        s.push('-');
+    }
+    if f.contains(CConversionFlags::BLANK_SIGN) {
+        s.push(' ');
+    }
+    if f.contains(CConversionFlags::SIGN_CHAR) {
+        s.push('+');
+    }
+    s
+}
+fn quantity(q: &Option<CFormatQuantity>) -> String {
+    match q {
+        None => "null".into(),
+        Some(CFormatQuantity::Amount(n)) => n.to_string(),
+        Some(CFormatQuantity::FromValuesTuple) => "\"*\"".into(),
+    }
+}
+fn precision(p: &Option<CFormatPrecision>) -> String {
+    match p {
+        None => "null".into(),
+        Some(CFormatPrecision::Dot) => "\"dot\"".into(),
+        Some(CFormatPrecision::Quantity(CFormatQuantity::Amount(n))) => n.to_string(),
+        Some(CFormatPrecision::Quantity(CFormatQuantity::FromValuesTuple)) => "\"*\"".into(),
+    }
+}
+fn spec_json(s: &CFormatSpec) -> String {
+    format!(
+        "{{\"key\":{},\"flags\":{},\"width\":{},\"prec\":{},\"type\":{}}}",
+        s.mapping_key.as_ref().map(|k| jstr(k)).unwrap_or("null".into()),
+        jstr(&flags_str(s.flags)),
+        quantity(&s.min_field_width),
+        precision(&s.precision),
+        jstr(&s.format_char.to_string())
+    )
+}
+fn err_json(t: &CFormatErrorType, index: usize) -> String {
+    let (name, ch) = match t {
+        CFormatErrorType::UnsupportedFormatChar(c) => ("UnsupportedFormatChar".to_string(), jstr(&c.to_string())),
+        other => (format!("{:?}", other), "null".into()),
+    };
+    format!("{{\"err\":\"{}\",\"char\":{},\"index\":{}}}", name, ch, index)
+}
+
+/// Resolve `*` width / precision from the argument list the way a caller has to (the library only
+/// records FromValuesTuple), then format one argument with the function matching the specifier type.
+fn format_one(spec: &mut CFormatSpec, args: &mut std::slice::Iter<Value>, bytes_mode: bool) -> Result<Vec<u8>, String> {
+    if let Some(CFormatQuantity::FromValuesTuple) = spec.min_field_width {
+        let n = args.next().and_then(|a| a["v"].as_str().map(|s| s.to_string())).ok_or("missing * width")?;
+        spec.min_field_width = Some(CFormatQuantity::Amount(n.parse::<usize>().map_err(|e| e.to_string())?));
+    }
+    if let Some(CFormatPrecision::Quantity(CFormatQuantity::FromValuesTuple)) = spec.precision {
+        let n = args.next().and_then(|a| a["v"].as_str().map(|s| s.to_string())).ok_or("missing * precision")?;
+        spec.precision = Some(CFormatPrecision::Quantity(CFormatQuantity::Amount(n.parse::<usize>().map_err(|e| e.to_string())?)));
+    }
+    let arg = args.next().ok_or("missing argument")?;
+    let t = arg["t"].as_str().unwrap_or("");
+    let v = arg["v"].as_str().unwrap_or("");
+    Ok(match (&spec.format_type, t) {
+        (CFormatType::Number(_), "int") => spec.format_number(&BigInt::from_str(v).map_err(|_| "bad int")?).into_bytes(),
+        (CFormatType::Float(_), "float") => spec.format_float(f64::from_bits(u64::from_str_radix(v, 16).map_err(|e| e.to_string())?)).into_bytes(),
+        (CFormatType::Character, "char") if !bytes_mode => spec.format_char(v.chars().next().ok_or("empty char")?).into_bytes(),
+        (CFormatType::Character, "bytes") if bytes_mode => {
+            // no dedicated entry point for %c in a bytes template: do what format_char does for text
+            // (the value is one unit, an explicit precision is ignored) and pad with format_bytes
+            spec.precision = Some(CFormatPrecision::Quantity(CFormatQuantity::Amount(1)));
+            spec.format_bytes(&crate::req_bytes(arg, "v")[..1])
+        }
+        (CFormatType::String(_), "str") if !bytes_mode => spec.format_string(v.to_string()).into_bytes(),
+        (CFormatType::String(_), "bytes") if bytes_mode => spec.format_bytes(&crate::req_bytes(arg, "v")),
+        (ft, t) => return Err(format!("argument type {} does not fit {:?}", t, ft)),
+    })
+}
+
+fn run_parts<S>(parts: &mut CFormatStrOrBytes<S>, req: &Value, bytes_mode: bool, lit: impl Fn(&S) -> (String, Vec<u8>)) -> String {
+    let mut o = String::from("{\"parts\":[");
+    let check = parts.check_specifiers();
+    let empty = vec![];
+    let args_v = req["args"].as_array().unwrap_or(&empty);
+    let mut args = args_v.iter();
+    let mut out: Vec<u8> = vec![];
+    let mut fmt_err: Option<String> = None;
+    let do_format = req["args"].is_array();
+    for (i, (index, part)) in parts.iter_mut().enumerate() {
+        if i > 0 {
+            o.push(',');
+        }
+        match part {
+            CFormatPart::Literal(l) => {
+                let (j, b) = lit(l);
+                o.push_str(&format!("{{\"at\":{},\"lit\":{}}}", index, j));
+                out.extend_from_slice(&b);
+            }
+            CFormatPart::Spec(s) => {
+                o.push_str(&format!("{{\"at\":{},\"spec\":{}}}", index, spec_json(s)));
+                if do_format && fmt_err.is_none() {
+                    match format_one(s, &mut args, bytes_mode) {
+                        Ok(b) => out.extend_from_slice(&b),
+                        Err(e) => fmt_err = Some(e),
+                    }
+                }
+            }
+        }
+    }
+    o.push_str(&format!(
+        "],\"check_specifiers\":{}",
+        match check {
+            Some((n, m)) => format!("[{},{}]", n, m),
+            None => "null".into(),
+        }
+    ));
+    if do_format {
+        match fmt_err {
+            Some(e) => o.push_str(&format!(",\"format_error\":{}", jstr(&e))),
+            None => {
+                if bytes_mode {
+                    o.push_str(&format!(",\"out_hex\":\"{}\"", hex(&out)));
+                } else {
+                    o.push_str(&format!(",\"out\":{}", jstr(&String::from_utf8(out).unwrap())));
+                }
+            }
+        }
+    }
+    o.push('}');
+    o
+}
+
+fn field_name_json(text: &str) -> String {
+    match FieldName::parse(text) {
+        Err(e) => format!("{{\"err\":\"{:?}\"}}", e),
+        Ok(f) => {
+            let head = match &f.field_type {
+                FieldType::Auto => "{\"t\":\"auto\"}".to_string(),
+                FieldType::Index(i) => format!("{{\"t\":\"index\",\"v\":\"{}\"}}", i),
+                FieldType::Keyword(k) => format!("{{\"t\":\"keyword\",\"v\":{}}}", jstr(k)),
+            };
+            let parts: Vec<String> = f
+                .parts
+                .iter()
+                .map(|p| match p {
+                    FieldNamePart::Attribute(a) => format!("{{\"t\":\"attr\",\"v\":{}}}", jstr(a)),
+                    FieldNamePart::Index(i) => format!("{{\"t\":\"index\",\"v\":\"{}\"}}", i),
+                    FieldNamePart::StringIndex(s) => format!("{{\"t\":\"key\",\"v\":{}}}", jstr(s)),
+                })
+                .collect();
+            format!("{{\"head\":{},\"parts\":[{}]}}", head, parts.join(","))
+        }
+    }
+}
+
+pub fn dispatch(op: &str, req: &Value) -> Option<String> {
+    Some(match op {
+        "cformat_str" => {
+            let t = req_str(req, "template");
+            match CFormatString::from_str(t) {
+                Err(e) => {
+                    let mut s = err_json(&e.typ, e.index);
+                    s.pop();
+                    s.push_str(&format!(",\"display\":{}}}", jstr(&e.to_string())));
+                    s
+                }
+                Ok(mut parts) => run_parts(&mut parts, req, false, |l: &String| (jstr(l), l.clone().into_bytes())),
+            }
+        }
+        "cformat_bytes" => {
+            let t = req_bytes(req, "template");
+            match CFormatBytes::parse_from_bytes(&t) {
+                Err(e) => {
+                    let mut s = err_json(&e.typ, e.index);
+                    s.pop();
+                    s.push_str(&format!(",\"display\":{}}}", jstr(&e.to_string())));
+                    s
+                }
+                Ok(mut parts) => run_parts(&mut parts, req, true, |l: &Vec<u8>| (format!("\"{}\"", hex(l)), l.clone())),
+            }
+        }
+        "cformat_spec" => match CFormatSpec::from_str(req_str(req, "spec")) {
+            Err((t, i)) => err_json(&t, i),
+            Ok(s) => format!("{{\"spec\":{}}}", spec_json(&s)),
+        },
+        "format_template" => {
+            let t = req_str(req, "template");
+            let r = if req["via_from_str"].as_bool().unwrap_or(false) { FormatString::from_str(t) } else { FormatString::from_str(t) };
+            match r {
+                Err(e) => format!("{{\"err\":\"{:?}\"}}", e),
+                Ok(fs) => {
+                    let parts: Vec<String> = fs
+                        .format_parts
+                        .iter()
+                        .map(|p| match p {
+                            FormatPart::Literal(l) => format!("{{\"lit\":{}}}", jstr(l)),
+                            FormatPart::Field { field_name, conversion_spec, format_spec } => format!(
+                                "{{\"field\":{},\"conv\":{},\"spec\":{}}}",
+                                jstr(field_name),
+                                conversion_spec.map(|c| jstr(&c.to_string())).unwrap_or("null".into()),
+                                jstr(format_spec)
+                            ),
+                        })
+                        .collect();
+                    format!("{{\"parts\":[{}]}}", parts.join(","))
+                }
+            }
+        }
+        "field_name" => field_name_json(req_str(req, "name")),
+        _ => return None,
+    })
+}
